@@ -213,7 +213,7 @@ impl Scenario for Append {
         "seeded histories of 1..12 append_or_new calls on a stored blob mirrored by a reference model (count + deterministic items): item types u8, u32, String, Vec<u8>, (), derived enum; targets Vec and VecDeque; item forms &[T], Vec<T> by value, iter::once, Box<T> items, iterator of references, honest ExactSizeIterator of unit items; start from empty input or from the encoding of a sequence whose length sits on/around 63|64, 2^14, 2^30 (2^30 and beyond only for unit items; 2^14 for u8/unit); batches of size 0, 1, small, or exactly enough to reach / cross the next prefix-width boundary; dedicated histories around 2^32 (total exactly u32::MAX, one beyond, batch lengths >= 2^32); blobs whose count prefix was damaged (non-canonical, truncated, over-wide); oracle after every call: blob == compact(count) ++ reference encodings of all items, Err exactly when the total exceeds u32::MAX or the prefix is not a valid Compact<u32>; non-trivial = every history (at least one append executed)"
     }
     fn cases(&self, tier: Tier) -> u64 {
-        tiered(tier, 60_000, 6_000_000)
+        tiered(tier, 300_000, 10_000_000)
     }
     fn gen(&self, seed: u64, idx: u64, _tier: Tier) -> Plan {
         let mut rng = Rng::for_case(seed, "append", idx);
